@@ -9,9 +9,9 @@ for id in $ids; do
   wt=/tmp/wt/reval_$id
   git -C /repo worktree add -q "$wt" HEAD || { echo "$id worktree-failed"; continue; }
   mkdir -p "$wt/_mut/x"; cp "$d/demo.py" "$wt/_mut/x/demo.py"
-  ( cd "$wt" && timeout 300 /venv/bin/python -W ignore _mut/x/demo.py >/dev/null 2>&1 ); clean=$?
+  ( cd "$wt" && PYTHONPATH="$wt" timeout 300 /venv/bin/python -W ignore _mut/x/demo.py >/dev/null 2>&1 ); clean=$?
   if ! ( cd "$wt" && git apply "$d/patch.diff" 2>/dev/null ); then echo "$id patch-does-not-apply"; git -C /repo worktree remove --force "$wt"; continue; fi
-  ( cd "$wt" && timeout 300 /venv/bin/python -W ignore _mut/x/demo.py >/dev/null 2>&1 ); mutated=$?
+  ( cd "$wt" && PYTHONPATH="$wt" timeout 300 /venv/bin/python -W ignore _mut/x/demo.py >/dev/null 2>&1 ); mutated=$?
   out=$(VERIF_REPO="$wt" ./check "$prop" --tier quick --no-evidence 2>&1); rc=$?
   nv=$(echo "$out" | grep -c "^VIOLATION")
   obl=$(echo "$out" | grep -E "^  $prop\." | sed -E "s/^  ($prop\.[a-z_0-9]+).*/\1/" | sort | uniq -c | sort -rn | awk '{print $2"("$1")"}' | tr '\n' ' ')
